@@ -6,7 +6,7 @@ From Coq Require Import String.
 From Coq Require Import List Arith Bool ZArith Reals Ring.
 From NV.Lib Require Import RingMat C08Base.
 From NV.Generated Require Import AffineClasses.
-From NV.C08 Require Import Model Proofs ProofsR.
+From NV.C08 Require Import Model Proofs Proofs2 ProofsR.
 Import ListNotations.
 Close Scope R_scope.
 Open Scope list_scope.
@@ -132,6 +132,52 @@ Print Assumptions inv_apply.
 Print Assumptions chain_apply.
 Print Assumptions param_set_get.
 Print Assumptions param_get_set.
+
+Section Signs.
+  Variable R : Type.
+  Variables (r0 r1 : R) (radd rmul rsub : R -> R -> R) (ropp : R -> R).
+  Variable rdiv : R -> R -> R.
+  Variable rneg : R -> bool.
+  Hypothesis Rth : ring_theory r0 r1 radd rmul rsub ropp (@eq R).
+  Hypothesis rneg_one : rneg r1 = false.           (* not (1 < 0) *)
+  Hypothesis rneg_mone : rneg (ropp r1) = true.    (* -1 < 0 *)
+
+  Local Notation from_matrix44 := (from_matrix44 R r0 r1 radd rmul rsub ropp rdiv rneg).
+  Local Notation fx_contract := (fx_contract R r0 radd rmul).
+  Local Notation det3 := (det3 R r0 radd rmul rsub).
+  Local Notation is_pm1 := (is_pm1 R r1 ropp).
+
+  (* (8) what the sign fixes are for: with orthogonal SVD factors (det = +-1)
+     both matrices handed to rotation_mat2vec are proper (det = +1), and
+     _direct ends False exactly when det U * det V (the sign of det A) is -1. *)
+  Theorem sign_fix_factors_proper_affine :
+    forall k o M x, In k class_names -> lookup k src_fx_owner = Some "Affine"%string ->
+    fx_contract k o M -> is_pm1 (det3 (o_U R o)) -> is_pm1 (det3 (o_V R o)) ->
+    from_matrix44 k true o M = Some x ->
+    det3 (x_R x) = r1 /\ det3 (x_Q x) = r1 /\
+    x_direct x = negb (rneg (rmul (det3 (o_U R o)) (det3 (o_V R o)))).
+  Proof. exact (affine_factors_proper R r0 r1 radd rmul rsub ropp rdiv rneg Rth rneg_one rneg_mone). Qed.
+
+  Theorem sign_fix_factors_proper_rigid :
+    forall k o M x, In k class_names -> lookup k src_fx_owner = Some "Rigid"%string ->
+    wf_aff r0 r1 3 3 M -> is_pm1 (det3 (lin_part R M)) ->
+    from_matrix44 k true o M = Some x ->
+    det3 (x_R x) = r1 /\ det3 (x_Q x) = r1 /\ x_direct x = negb (rneg (det3 (lin_part R M))).
+  Proof. exact (rigid_factors_proper R r0 r1 radd rmul rsub ropp rdiv rneg Rth rneg_one rneg_mone). Qed.
+
+  (* (9) PolyAffine.compose(affine): only the global affine is updated (G.A, or
+     A when there was none), and the result applied to x equals the original
+     applied to A x, whatever the kernel `_apply_polyaffine` computes. *)
+  Theorem polyaffine_compose_apply :
+    forall (kernel : list R -> list R) glob A x,
+    (forall G, glob = Some G -> wf_aff r0 r1 3 3 G) -> wf_aff r0 r1 3 3 A -> length x = 3 ->
+    pa_apply R r0 r1 radd rmul kernel (pa_compose_glob R r0 radd rmul glob A) x
+    = pa_apply R r0 r1 radd rmul kernel glob (happly r0 r1 radd rmul A x).
+  Proof. exact (polyaffine_compose_apply_lemma R r0 r1 radd rmul rsub ropp Rth). Qed.
+End Signs.
+Print Assumptions sign_fix_factors_proper_affine.
+Print Assumptions sign_fix_factors_proper_rigid.
+Print Assumptions polyaffine_compose_apply.
 
 (* (7) Over the real numbers: rotation_vec2mat(r) is a proper rotation
    (R^T R = R R^T = I, det R = 1) whenever theta = |r| exceeds the small-angle
